@@ -612,6 +612,35 @@ class Interp:
                         el = arr_[ix]
                         if isinstance(el, (str, int)):
                             return int(el)
+                        if isinstance(el, dict) and 'struct' in el:
+                            # a row of a table of structs: fields by name (from the class facts); character arrays are mapped
+                            # read-only into the byte memory and stand for their address
+                            tn_ = (st_.get('t') or '').replace('const ', '').replace('struct ', '').split('[')[0].strip()
+                            fields_ = None
+                            for c_ in self.facts.classes:
+                                if c_.get('name') == tn_ or (c_.get('qn') or '').endswith('::' + tn_) or c_.get('qn') == tn_:
+                                    fields_ = [f_['name'] for f_ in c_.get('fields', [])]
+                            if fields_ is None or len(fields_) != len(el['struct']):
+                                raise Unsupported('row of struct table %s' % st_['name'])
+                            row_ = {}
+                            for fn_, v_ in zip(fields_, el['struct']):
+                                if isinstance(v_, (str, int)):
+                                    row_[fn_] = int(v_)
+                                elif isinstance(v_, dict) and 'strbytes' in v_ and self.memory is not None:
+                                    key_ = ('row', st_['id'], ix, fn_)
+                                    if not hasattr(self, 'globals_at'):
+                                        self.globals_at = {}
+                                        self.readonly = getattr(self, 'readonly', [])
+                                    if key_ not in self.globals_at:
+                                        a_ = 0x48000000 + 0x40 * len([k for k in self.globals_at if isinstance(k, tuple)])
+                                        for j_, b_ in enumerate(v_['strbytes']):
+                                            self.memory[a_ + j_] = int(b_) & 0xff
+                                        self.readonly.append((a_, a_ + len(v_['strbytes'])))
+                                        self.globals_at[key_] = a_
+                                    row_[fn_] = self.globals_at[key_]
+                                else:
+                                    raise Unsupported('field %s of struct table %s' % (fn_, st_['name']))
+                            return row_
                         if isinstance(el, dict) and 'arr' in el:
                             return [int(x_) if isinstance(x_, (str, int)) else x_ for x_ in el['arr']]
                         if isinstance(el, list):
